@@ -1,6 +1,6 @@
-(* C08 -- Source map segments link identical lexemes (writer-level clauses).  Property theorems only. *)
-Require Import Base Token Tree SourceMap Writer Compile WriterSpec WriterProofs.
-Require Import Gen.Printer.
+(* C08 -- Source map segments link identical lexemes (writer-level and segment-level clauses).  Property theorems only. *)
+Require Import Base Token Lexer Tree SourceMap Writer Compile Parser Grammar WriterSpec TokenSpec SegSpec WriterProofs SegProofs.
+Require Import Gen.Tables Gen.Printer.
 
 (* every byte that reaches the buffer advanced the mapper identically: after any
    history of writer operations the mapper stands at the line/column of the end of
@@ -31,3 +31,32 @@ Theorem C08_sorted : forall cfg ops,
   sorted_pos (map gen_pos (sm_maps (w_mapper (run_wops cfg ops)))).
 Proof. exact mappings_sorted. Qed.
 Print Assumptions C08_sorted.
+
+(* for every program of the grammar lexed from a CR-free source text, in every configuration
+   whose post-processing leaves the buffer as written (always the case for compact output):
+   each recorded segment (C09: exactly what the "mappings" string decodes to) points from a
+   generated position where the code spells the text of a token to the source position where
+   that very token starts; a named segment carries the identifier's spelling *)
+Theorem C08_segments_link_lexemes : forall cfg src toks p,
+  tokenize src = Some toks -> ~ In CR src ->
+  m_program p toks = true -> wf_program p = true ->
+  w_map cfg = true -> no_cr (w_indent cfg) ->
+  r_code (compile cfg p) = w_buf (run_wops cfg (write_program p)) ->
+  segments_link cfg p toks = true.
+Proof. exact segments_link_lexemes. Qed.
+Print Assumptions C08_segments_link_lexemes.
+
+Theorem C08_segments_link_lexemes_compact : forall src toks p,
+  tokenize src = Some toks -> ~ In CR src ->
+  m_program p toks = true -> wf_program p = true ->
+  segments_link (cfg_compact true) p toks = true.
+Proof. exact segments_link_lexemes_compact. Qed.
+Print Assumptions C08_segments_link_lexemes_compact.
+
+(* every identifier occurrence of the source is covered by a named segment, in every configuration *)
+Theorem C08_identifiers_covered : forall cfg src toks p,
+  tokenize src = Some toks ->
+  m_program p toks = true -> wf_program p = true -> w_map cfg = true ->
+  idents_covered cfg p toks = true.
+Proof. exact identifiers_covered. Qed.
+Print Assumptions C08_identifiers_covered.
